@@ -417,61 +417,67 @@ func ruleIndexBound(c *eng.Ctx) {
 		})
 		// w[i] stores
 		wOK, wSeen := true, false
-		eng.Instrs(fn, false, func(in ssa.Instruction) {
-			st, ok := in.(*ssa.Store)
-			if !ok {
-				return
-			}
-			ia, ok := st.Addr.(*ssa.IndexAddr)
-			if !ok {
-				return
-			}
-			// make([]int, 3): either a MakeSlice of constant length 3 or a slice of a new [3]int
-			isW := false
-			switch x := ia.X.(type) {
-			case *ssa.MakeSlice:
-				if k, isC := eng.ConstInt(x.Len); isC && k == 3 {
-					isW = true
+		// the /W validation may be a helper returning the widths: every function of the cluster is scanned in its own context
+		wCluster := eng.Cluster(fn, 2)
+		for _, fn := range wCluster {
+			eng.Instrs(fn, false, func(in ssa.Instruction) {
+				st, ok := in.(*ssa.Store)
+				if !ok {
+					return
 				}
-			case *ssa.Slice:
-				if al, ok := x.X.(*ssa.Alloc); ok {
-					if at, ok := al.Type().Underlying().(*types.Pointer).Elem().Underlying().(*types.Array); ok && at.Len() == 3 {
-						if b, ok := at.Elem().Underlying().(*types.Basic); ok && b.Kind() == types.Int {
-							isW = true
+				ia, ok := st.Addr.(*ssa.IndexAddr)
+				if !ok {
+					return
+				}
+				// make([]int, 3): either a MakeSlice of constant length 3 or a slice of a new [3]int
+				isW := false
+				switch x := ia.X.(type) {
+				case *ssa.MakeSlice:
+					if k, isC := eng.ConstInt(x.Len); isC && k == 3 {
+						isW = true
+					}
+				case *ssa.Slice:
+					if al, ok := x.X.(*ssa.Alloc); ok {
+						if at, ok := al.Type().Underlying().(*types.Pointer).Elem().Underlying().(*types.Array); ok && at.Len() == 3 {
+							if b, ok := at.Elem().Underlying().(*types.Basic); ok && b.Kind() == types.Int {
+								isW = true
+							}
 						}
 					}
 				}
-			}
-			if !isW {
-				return
-			}
-			wSeen = true
-			cv, ok := st.Val.(*ssa.Convert)
-			if !ok {
-				wOK = false
-				return
-			}
-			lo := bounded(fn, cv.X, 0, false, st.Block(), 0)
-			hi := bounded(fn, cv.X, 8, true, st.Block(), 0)
-			if !lo || !hi {
-				wOK = false
-			}
-		})
+				if !isW {
+					return
+				}
+				wSeen = true
+				cv, ok := st.Val.(*ssa.Convert)
+				if !ok {
+					wOK = false
+					return
+				}
+				lo := bounded(fn, cv.X, 0, false, st.Block(), 0)
+				hi := bounded(fn, cv.X, 8, true, st.Block(), 0)
+				if !lo || !hi {
+					wOK = false
+				}
+			})
+		}
 		c.Check(wSeen && wOK, R, "core.(*XRefParser).parseXRefStream#W-range", fn.Pos(), "/W widths proven within 0..8", "a /W field width is used without proving 0 <= w <= 8: a negative width slices with a negative bound")
 		// all-zero check: a comparison of a sum with 0 leading to an error return
 		zero := false
-		eng.Instrs(fn, false, func(in ssa.Instruction) {
-			b, ok := in.(*ssa.BinOp)
-			if !ok || (b.Op != token.EQL && b.Op != token.LEQ && b.Op != token.LSS) {
-				return
-			}
-			if k, isC := eng.ConstInt(b.Y); !isC || (k != 0 && k != 1) {
-				return
-			}
-			if sum, ok := b.X.(*ssa.BinOp); ok && sum.Op == token.ADD {
-				zero = true
-			}
-		})
+		for _, h := range wCluster {
+			eng.Instrs(h, false, func(in ssa.Instruction) {
+				b, ok := in.(*ssa.BinOp)
+				if !ok || (b.Op != token.EQL && b.Op != token.LEQ && b.Op != token.LSS) {
+					return
+				}
+				if k, isC := eng.ConstInt(b.Y); !isC || (k != 0 && k != 1) {
+					return
+				}
+				if sum, ok := b.X.(*ssa.BinOp); ok && sum.Op == token.ADD {
+					zero = true
+				}
+			})
+		}
 		c.Check(zero, R, "core.(*XRefParser).parseXRefStream#W-nonzero", fn.Pos(), "an all-zero /W is rejected", "an entry width of zero is accepted: each entry consumes no bytes and a large /Index count loops without end")
 	}
 }
@@ -534,12 +540,12 @@ type recGuard struct {
 
 var guardedRecursion = map[string]recGuard{
 	"contentstream.(*Parser).parseArray | contentstream.(*Parser).parseDict | contentstream.(*Parser).parseOperand": {"depth", "contentstream.(*Parser).parseArray", "depth"},
-	"core.(*Parser).ParseObject | core.(*Parser).parseArray | core.(*Parser).parseDict":                               {"depth", "core.(*Parser).parseArray", "depth"},
+	"core.(*Parser).ParseObject | core.(*Parser).parseArray | core.(*Parser).parseDict":                             {"depth", "core.(*Parser).parseArray", "depth"},
 	"core.(*Parser).ParseIndirectObject | core.(*Parser).parseStream | reader.(*Reader).GetObject | reader.(*Reader).ResolveReference | reader.(*Reader).getCompressedObject | reader.(*Reader).getObjectStream | reader.(*Reader).getUncompressedObject": {"set", "reader.(*Reader).GetObject", "loading"},
-	"pages.(*PageTree).traversePageNode":                                      {"depth", "pages.(*PageTree).traversePageNode", "depth"},
-	"reader.(*Reader).resolveDeep":                                            {"set", "reader.(*Reader).resolveDeep", "onPath"},
-	"resolver.(*ObjectResolver).resolve":                                      {"depth", "resolver.(*ObjectResolver).resolve", "Depth"},
-	"text.(*Extractor).invokeXObject | text.(*Extractor).processOperation":   {"depth", "text.(*Extractor).invokeXObject", "xobjectDepth"},
+	"pages.(*PageTree).traversePageNode":                                   {"depth", "pages.(*PageTree).traversePageNode", "depth"},
+	"reader.(*Reader).resolveDeep":                                         {"set", "reader.(*Reader).resolveDeep", "onPath"},
+	"resolver.(*ObjectResolver).resolve":                                   {"depth", "resolver.(*ObjectResolver).resolve", "Depth"},
+	"text.(*Extractor).invokeXObject | text.(*Extractor).processOperation": {"depth", "text.(*Extractor).invokeXObject", "xobjectDepth"},
 }
 
 // hasDepthGuard: fn compares a value whose name/field contains `what` with a bound and returns
